@@ -8,7 +8,7 @@
    DESIGN.md. *)
 From stdpp Require Import base list option numbers.
 From Incr.Model Require Import Base Live Engine Api.
-From Incr.Proofs Require Import Pres Safe RchInv FrameRchInv FrameNoHeapPanic RchMin FrameRchMin Histories Edges.
+From Incr.Proofs Require Import Pres OkPres Safe RchInv FrameRchInv FrameNoHeapPanic RchMin FrameRchMin Histories Edges HandlerCount.
 
 (* [rch_inv s]: a node occurs in queue h of the recompute heap exactly when its
    height_in_recompute_heap cell says h (so a cell of -1 means "in no queue"), and no queue lists a
@@ -108,6 +108,13 @@ Example C11_nonvacuous :
      (Ok OutUnit, [0%nat]); (Ok (OutObs 1), [0%nat]); (Panic PInjected, []); (Ok OutUnit, []); (Ok OutUnit, [])].
 Proof. vm_compute. reflexivity. Qed.
 
+(* the audit's handler-count clause, as an invariant of whole histories (debug builds, up to the first failing
+   operation): every node's num_on_update_handlers equals its own handlers plus those of its linked observers, the
+   lists of linked observers are duplicate-free and agree with the observers' states *)
+Theorem C11_handler_counts_in_every_history :
+  forall fuel max_height ops, while_ok (run_history fuel max_height true ops) HCd.
+Proof. exact history_handler_count. Qed.
+
 Print Assumptions C11_heap_operations_keep_the_heap_consistent.
 Print Assumptions C11_recompute_heap_consistent_along_every_history.
 Print Assumptions C11_fresh_state_is_consistent.
@@ -117,3 +124,4 @@ Print Assumptions C11_heap_counter_and_lower_bound_in_every_history.
 Print Assumptions C11_add_parent_links_both_ends.
 Print Assumptions C11_remove_parent_last_entry.
 Print Assumptions C11_remove_parent_inner_entry.
+Print Assumptions C11_handler_counts_in_every_history.
